@@ -114,10 +114,14 @@ Definition depends_on (p : prog) (main : nat) : list var :=
   map argvar (filter (is_arg p) (postorder (2 * fuel_of p) (full_adj p) (NIntro main))).
 
 (* ---------- the checked public build ---------- *)
+(* the distinct input Vars, in their order of first occurrence (one Var may be listed under two names: such a request can
+   only succeed when that Var is dropped as unused) *)
+Definition main_args (inputs : list (string * var)) : list var :=
+  fold_left (fun acc kv => add_set var_eqb (snd kv) acc) inputs [].
 Definition validators (p : prog) (r : request) (m : model) : bool :=
   match all_vars (r_inputs r), all_vars (r_outputs r) with
   | Some inputs, Some outputs =>
-    let p' := with_main p (Some (map snd inputs)) outputs in
+    let p' := with_main p (Some (main_args inputs)) outputs in
     global_unique (mmain m) && node_names_unique (mmain m) && imports_unique m &&
     emitted_once p' (mmain m) && placed p' (mmain m) && check_plan p' (mmain m) &&
     io_exact p' inputs outputs (r_drop r) (depends_on p' 0) (mmain m)
